@@ -9,8 +9,11 @@ Correspondence:
      final cache key set;
  (2) django.urls.resolve vs the hand-written route matcher; (3) str.strip / is_nonempty_str / str.isspace.
 Direct oracle (independent of the model): every announced URL is fetched -> 200, body == that class's stripped code,
-right Content-Type; no request ever gives 5xx or a body that is not the code of the class named in the path; non-GET on a
+right Content-Type; a URL stays owed until exactly ITS cache entry is deleted (deleting other entries releases nothing; clear()
+releases all); no request ever gives 5xx or a body that is not the code of the class named in the path; non-GET on a
 well-formed endpoint path -> 405; unknown hash / kind -> 404.
+Outside the statement (lead's decision; reported in evidence coverage.outside_statement_split_flow, never an alarm): template
+render, THEN an eviction of the entry, THEN render_dependencies over the stale markers.
 """
 import base64
 import hashlib
@@ -537,6 +540,31 @@ def hist_term(pool, ops, outs, keys):
                                     clist([out_term(o) for o in outs]), clist([cstr(k) for k in keys]))
 
 
+_LIT = re.compile(r"\[\d+(?:;\d+)+\]%N")
+
+
+def intern_strings(terms, max_global=400):
+    """Printing only (speeds up coqc's parsing of the case files, which dominates the run): string literals that occur in many
+    cases become shared `Definition c19sN : str`, literals repeated inside one case become a `let` around that case."""
+    import collections
+    cnt = collections.Counter()
+    for t in terms:
+        cnt.update(set(_LIT.findall(t)))
+    top = sorted((x for x in cnt if cnt[x] >= 8 and len(x) > 30), key=lambda x: -cnt[x] * len(x))[:max_global]
+    glob = {x: "c19s%d" % i for i, x in enumerate(top)}
+    defs = "\n".join("Definition %s : str := %s." % (n, x) for x, n in glob.items())
+    out = []
+    for t in terms:
+        t = _LIT.sub(lambda m: glob.get(m.group(0), m.group(0)), t)
+        local = collections.Counter(_LIT.findall(t))
+        names = {x: "l%d" % i for i, x in enumerate(sorted(x for x in local if local[x] >= 2 and len(x) > 24))}
+        if names:
+            t = _LIT.sub(lambda m: names.get(m.group(0), m.group(0)), t)
+            t = "(" + "".join("let %s : str := %s in " % (n, x) for x, n in names.items()) + t + ")"
+        out.append(t)
+    return defs, out
+
+
 # ------------------------------------------------------------------------------------------------------------------
 # generators
 # ------------------------------------------------------------------------------------------------------------------
@@ -812,7 +840,8 @@ def run(tier, seed):
         for _ in range(per_pool):
             run_case(chk, pool, random_history(pool, rng, rng.randint(3, 10)), "random", terms, cases, rng)
     phase("histories-implementation")
-    defs = GHOST_DEF + "\n" + "\n".join(p.coq_defs() for p in pools)
+    sdefs, terms = intern_strings(terms)
+    defs = GHOST_DEF + "\n" + "\n".join(p.coq_defs() for p in pools) + "\n" + sdefs
     bad = C.coq_eval_cases("C19", "hist", IMPORTS, "hist_case", "check_hist", terms, shard=max(40, -(-len(terms) // 16)) if not thorough else 150, extra_defs=defs)
     phase("histories-coq")
     for i in bad[:20]:
@@ -831,7 +860,9 @@ def run(tier, seed):
     for p in pools[-1:]:
         paths += adversarial_paths(p, rng, known_input_hashes(), 3000 if thorough else 600)
     paths += ["", "/", "/components/", "/components/cache", "components/cache/a.js", "/components/cache/a.js/", "//components/cache/a.js",
-              "/components/cache/\n.js", "/components/cache/a.b\n", "/components/cache/a b.c d.e f"]
+              "/components/cache/\n.js", "/components/cache/a.b\n", "/components/cache/a b.c d.e f",
+              "/components/cache/a.a.a.a", "/components/cache/a.b.c.js", "/components/cache/a..b.js", "/components/cache/a.js.js.js", "/components/cache/a.b.c.d.css",
+              "/components/cache/.a.b.js", "/components/cache/a.b.js.", "/components/cache/a:b.c:d.js", "/components/cache/a.b/c.js"]
     for p in paths:
         try:
             m = resolve(p)
